@@ -7,5 +7,7 @@ impl StrBytes {
     #[verifier::external_body]
     pub fn len(&self) -> (r: usize) ensures r == self@.len() { self.s.len() }
     #[verifier::external_body]
+    pub fn is_empty(&self) -> (r: bool) ensures r == (self@.len() == 0) { self.s.is_empty() }
+    #[verifier::external_body]
     pub fn as_bytes(&self) -> (r: &[u8]) ensures r@ == self@ { self.s.as_bytes() }
 }
